@@ -366,7 +366,7 @@ def _list_dist(xs, ys, budget: int, ordered: bool) -> Optional[int]:
         for k in range(len(longer)):
             rest = longer[:k] + longer[k + 1:]
             if (rest == shorter) if ordered else (sorted(map(repr, rest)) == sorted(map(repr, shorter))):
-                if longer is xs and longer[k] == ("reverse", ("const", "True")):
+                if longer is xs and longer[k] in (("reverse", ("const", "True")), ("reverse", ("true",))):
                     return 1  # sorted(..., reverse=True): the order is reversed
                 if longer is xs:
                     # the implementation (first argument) has an EXTRA requirement / alternative / filter / argument: it may
